@@ -428,7 +428,7 @@ static void one_solve(sc_scn_t *sc, vnacal_t *vcp, const noise_t *nz,
 	sc_watchdog(g_timeout);
 	r->ret = LIB(vnacal_new_solve(vnp));
 	r->err = errno;
-	alarm(0);
+	vt_watchdog_stop();
 	r->cbn = vt_cb.n_nonwarn;
 	r->one = vt_cb.n >= 1 && vt_cb.one_line[0];
 	if (vt_cb.n >= 1)
